@@ -269,7 +269,7 @@ def _char_pred(e, pn, ch, F=None, depth=0):
         if g and "hir" in g and len(g["hir"]["params"]) == 1 and g["hir"]["params"][0].get("name"):
             return _char_pred(g["hir"]["value"], g["hir"]["params"][0]["name"], ch, F, depth + 1)
         return None
-    if k == "Match" and not e.get("src") and peel(e["scrut"]).get("res") == pn:
+    if k == "Match" and e.get("src") in (None, "Normal") and peel(e["scrut"]).get("res") == pn:
         # matches!(c, 'a'..='z' | '_')
         for arm in e["arms"]:
             hit = arm["pat"].get("k") in ("PWild", "PBinding")
